@@ -58,6 +58,16 @@ def gen_module(rng, idx):
             else:
                 stmts.append(gendoc.Stmt(rng.choice(gendoc.ALL_KINDS), 10 + i))
         text, wants = gendoc.render_layout(rng, stmts, google=rng.random() < 0.3)
+        if rng.random() < 0.2:
+            # a long run of statements without wants, with block directives (that change nothing) far apart
+            stmts = [gendoc.Stmt(rng.choice(['assign', 'multi', 'compound', 'for', 'semicolon', 'augassign', 'def']), 10 + i) for i in range(rng.randint(9, 18))]
+            where = set(rng.sample(range(1, len(stmts)), rng.randint(2, 4)))
+            tl = []
+            for i, st in enumerate(stmts):
+                if i in where:
+                    tl.append('>>> # xdoctest: ' + rng.choice(['+REQUIRES(module:os)', '-REQUIRES(module:os)', '-SKIP', '+ELLIPSIS', '-IGNORE_WHITESPACE']))
+                tl += st.render('ps2', 0)
+            text, wants = '\n'.join(tl), {}
         if rng.random() < 0.15:
             text = '>>> # xdoctest: +SKIP\n' + text if not text.startswith(('Summary', ' ')) and text.startswith('>>>') else text
         name = 'fn%d_%d' % (idx, j)
